@@ -384,6 +384,7 @@ func extractDbLocks(repo, gen, facts string) {
 	}
 	inTxApis := dbInTxApis(repo, w.methods, &w.note)
 	metaOps := dbMetaOps(w.methods)
+	pathOps := dbSnapshotPathOps(w.methods)
 	type fact struct {
 		Programs map[string][]string     `json:"programs"`
 		InTx     map[string][]string     `json:"in_tx_programs"`
@@ -391,9 +392,10 @@ func extractDbLocks(repo, gen, facts string) {
 		Fields   [][2]string             `json:"dbimpl_fields"`
 		PkgVars  []string                `json:"db_go_package_vars"`
 		MetaOps  map[string][]dbMetaStep `json:"meta_ops"`
+		PathOps  []string                `json:"snapshot_path_ops"`
 		Notes    []string                `json:"notes,omitempty"`
 	}
-	js, _ := json.MarshalIndent(fact{res, inTx, inTxApis, fields, pkgVars, metaOps, w.note}, "", " ")
+	js, _ := json.MarshalIndent(fact{res, inTx, inTxApis, fields, pkgVars, metaOps, pathOps, w.note}, "", " ")
 	writeIfChanged(filepath.Join(facts, "dblocks.json"), string(js)+"\n")
 
 	var b strings.Builder
@@ -450,6 +452,7 @@ func extractDbLocks(repo, gen, facts string) {
 	}
 	b.WriteString("]\n")
 	b.WriteString(dbMetaOpsLean(metaOps))
+	b.WriteString(dbSnapshotPathOpsLean(pathOps))
 	b.WriteString("end StorageModel.Generated\n")
 	writeIfChanged(filepath.Join(gen, "DbLocks.lean"), b.String())
 }
